@@ -140,10 +140,10 @@ def run(ctx):
         else:
             ctx.finding("C12.D4", dfn, "decoy-form", "a decoy is not base64_hash of a fresh generate_salt(): %s" % vstr(rv, 5))
     if I.disc_new is not None:
-        rv = vals(I.disc_new).return_value()
+        from val import struct_return
+        host, p, chain = struct_return(fx, I.disc_new)
         hv = None
-        p = peel(rv)
-        if p.kind == "agg" and "hash" in (p.d["agg"].get("fields") or []):
+        if p is not None and p.kind == "agg" and "hash" in (p.d["agg"].get("fields") or []):
             hv = p.kids[p.d["agg"]["fields"].index("hash")]
         okh = hv is not None and peel(hv).kind == "call" and (peel(hv).d["term"].get("resolved") or "") == "utils::base64_hash"
         if okh:
